@@ -187,8 +187,10 @@ OPT_LEAN = {'session': 'session', 'collation': 'collation', 'array_filters': 'ar
             'let': 'let_', 'hint': 'hint'}
 
 
-def emit_options(entries, known_silent, known_optout, pairs=()):
-    """entries: extract_options.probe_options(); known_*: lists of (cls, method, option)"""
+def emit_options(entries, known_silent, pairs=()):
+    """entries: extract_options.probe_options(); known_silent: list of (cls, method, option).
+    (There is no list of opt-outs that do not work any more: the library honours every
+    ignore_feature since 4a36577, and Props.C20.opt_out_is_honoured says so without exception.)"""
     probed = [e for e in entries if e['disp'] != 'unprobed']
     methods = []
     for e in probed:
@@ -226,9 +228,6 @@ def emit_options(entries, known_silent, known_optout, pairs=()):
     out.append('/-- known findings: options dropped silently (no opt-out given): %s -/'
                % comment_safe(', '.join('%s.%s(%s)' % k for k in known_silent)))
     out.append('def knownSilent : List (Nat × Opt) := %s\n' % keys(known_silent))
-    out.append('/-- known findings: options that still raise after ignore_feature: %s -/'
-               % comment_safe(', '.join('%s.%s(%s)' % k for k in known_optout)))
-    out.append('def knownOptOutIneffective : List (Nat × Opt) := %s\n' % keys(known_optout))
     plines = []
     for e in sorted(pairs, key=lambda e: (mid.get((e['cls'], e['method']), -1),
                                           extract_options.OPTIONS.index(e['a']),
